@@ -25,7 +25,7 @@ class Gen:
     """Structured, mostly-valid histories; collision-heavy id pools; every choice from one PRNG."""
 
     def __init__(self, rnd, weights=None, npeers=3, idpool=(1, 2, 3), maxlen=30, p_fail=0.15, big_seids=True,
-                 txseq0_choices=(0, 5, 2**24 - 2, 2**24 - 1), maxretrans_choices=(0, 1, 2, 3), p_panic=0.0, p_alias=0.0, p_wfail=0.0):
+                 txseq0_choices=(0, 5, 2**24 - 2, 2**24 - 1), maxretrans_choices=(0, 1, 2, 3), p_panic=0.0, p_alias=0.0, p_wfail=0.0, p_wfail_recv=0.0):
         self.r = rnd
         self.w = dict(asr=6, est=14, mod=22, dele=8, hb=3, dup=8, usa=8, dld=5, timeout=8, srr=6, otherreq=2, otherrsp=2)
         if weights:
@@ -33,6 +33,7 @@ class Gen:
         self.npeers, self.idpool, self.maxlen, self.p_fail = npeers, list(idpool), maxlen, p_fail
         self.big_seids = big_seids
         self.txseq0_choices, self.maxretrans_choices = txseq0_choices, maxretrans_choices
+        self.p_wfail_recv = p_wfail_recv      # share of received datagrams handled while every write fails (the response is lost)
         self.p_wfail = p_wfail      # share of single-item reports served while every write on the PFCP socket fails
         self.p_alias = p_alias      # share of requests sent from the alias socket of a peer (same IP address, port 9805)
         self.p_panic = p_panic      # share of est/mod requests during which one driver call panics (contained: fix 242a7e8)
@@ -173,6 +174,8 @@ class Gen:
                 peer += 4
             seqs[peer] += 1
             ev = {"t": "recv", "peer": peer, "seq": seqs[peer], "msg": msg}
+            if self.p_wfail_recv and r.random() < self.p_wfail_recv:
+                ev["wfail"] = True          # handled while the socket's writes fail: the response is lost inside the UPF
             if with_env:
                 self.env(ev)
             sent.append(ev)
@@ -204,6 +207,9 @@ class Gen:
                 evs.append(recv(p, {"k": "hb"}, with_env=False))
             elif k == "dup" and sent:
                 evs.append(dict(r.choice(sent[-6:])))
+                evs[-1].pop("wfail", None)
+                if self.p_wfail_recv and r.random() < self.p_wfail_recv:
+                    evs[-1]["wfail"] = True
                 if self.p_alias and r.random() < self.p_alias:
                     evs[-1]["peer"] = (evs[-1]["peer"] + 4) % 8      # same bytes from the other port: a first copy
             elif k == "usa":
@@ -230,6 +236,8 @@ class Gen:
                 if outstanding and r.random() < 0.6:
                     d_, q_ = r.choice(outstanding)
                     evs.append({"t": "timeout", "tx": True, "peer": d_, "seq": q_})
+                    if self.p_wfail and r.random() < self.p_wfail:
+                        evs[-1]["wfail"] = True
                 elif r.random() < 0.5:
                     evs.append({"t": "timeout", "tx": True, "peer": r.randrange(self.npeers),
                                 "seq": (txseq0 + r.randrange(nreq + 1)) % 2**32})
@@ -544,7 +552,8 @@ def c_event(ev, reset_order, obs=None):
             ms = "(MReportRsp %d)" % m["hdr"]
         else:
             ms = "MOtherRsp"
-        return "(EvRecv %d %d %s %s)" % (ev["peer"], ev["seq"], ms, c_env(ev))
+        wf = ev.get("wfail") and obs is not None and not (obs.get("sends") or [])
+        return "(%s %d %d %s %s)" % ("EvRecvWF" if wf else "EvRecv", ev["peer"], ev["seq"], ms, c_env(ev))
     if ev["t"] == "report":
         items = []
         for it in ev["items"]:
@@ -558,7 +567,8 @@ def c_event(ev, reset_order, obs=None):
         wf = ev.get("wfail") and len(ev["items"]) == 1 and obs is not None and not (obs.get("sends") or [])
         return "(%s %d %s %s)" % ("EvReportWF" if wf else "EvReport", ev["seid"], clist(items), c_env(ev))
     if ev["t"] == "timeout":
-        return "(%s %d %d)" % ("EvTimeoutTx" if ev["tx"] else "EvTimeoutRx", ev["peer"], ev["seq"])
+        wf = ev["tx"] and ev.get("wfail") and obs is not None and not (obs.get("sends") or [])
+        return "(%s %d %d)" % (("EvTimeoutTxWF" if wf else "EvTimeoutTx") if ev["tx"] else "EvTimeoutRx", ev["peer"], ev["seq"])
     raise ValueError(ev["t"])
 
 
@@ -771,7 +781,7 @@ def distribution(cases):
             k = e["t"] if e["t"] != "recv" else e["msg"]["k"]
             d[k] = d.get(k, 0) + 1
             if e.get("wfail"):
-                d["report_with_failing_write"] = d.get("report_with_failing_write", 0) + 1
+                d[e["t"] + "_with_failing_write"] = d.get(e["t"] + "_with_failing_write", 0) + 1
             if e.get("peer", 0) >= 4 and e["t"] == "recv":
                 d["recv_from_alias_socket"] = d.get("recv_from_alias_socket", 0) + 1
     d["histories"] = len(cases)
